@@ -105,7 +105,9 @@ def _run(chk, prog):
         if b.kind != "AssocFn":
             continue
         S = A.summary(b.id)
-        evs = [e for e in S.events if e[0] == "call" and e[3] == b.id]
+        # own events, plus those of helper methods the reviewed tree does not know (expanded at their call site: e[6] is then
+        # the calling block in this body)
+        evs = [e for e in S.events if e[0] == "call" and (e[3] == b.id or not A.is_known(e[3]))]
         rets = b.return_blocks()
         map_removes = [e for e in evs if e[1].endswith("HashMap::remove") and e[2] and has(e[2][0], MAP)]
         map_inserts = [e for e in evs if (e[1].endswith("HashMap::insert") or e[1].endswith("HashMap::entry")) and e[2] and has(e[2][0], MAP)]
